@@ -54,19 +54,13 @@ func acquireThenDefer(fc *FCFG, start Loc, isRelease func(*ast.DeferStmt) bool, 
 		}
 		return svContinue
 	}
+	var failEdges []cfgEdge
+	if failObj != nil {
+		failEdges = fc.nilEdges(failObj, false)
+	}
 	edgeOK := func(b *cfg.Block, k int) bool {
-		if failObj == nil {
-			return true
-		}
-		cond := fc.CondOf(b)
-		if cond == nil {
-			return true
-		}
-		if is, trueNonNil := isNilTest(fc.Info, cond, failObj); is {
-			if trueNonNil && k == 0 {
-				return false
-			}
-			if !trueNonNil && k == 1 {
+		for _, e := range failEdges {
+			if e.B == b && e.K == k {
 				return false
 			}
 		}
